@@ -170,7 +170,10 @@ class Project:
         self.modules: dict[str, Module] = {}
         self._by_dotted: dict[str, Module] = {}
         self.consulted: set[str] = set()
+        self.normalize_log: list[str] = []
         self._load()
+        if not os.environ.get('SA_NO_NORMALIZE'):
+            self._normalize()
         self._link()
 
     # ------------------------------------------------------------------
@@ -195,6 +198,24 @@ class Project:
                 self.modules[rel] = mod
                 self._by_dotted[mod.dotted] = mod
                 self._index(mod)
+
+    def _normalize(self) -> None:
+        """Expand names that are new relative to the audited baseline (new
+        private helpers, single-assignment pure locals, literal constants):
+        see sa/normalize.py.  The unchanged tree is not touched."""
+        from .normalize import Normalizer
+        nz = Normalizer({rel: m.tree for rel, m in self.modules.items()})
+        self.normalize_log = nz.run()
+        if not self.normalize_log:
+            return
+        for mod in self.modules.values():
+            mod.funcs.clear()
+            mod.classes.clear()
+            mod.imports.clear()
+            for attr in ('_class_assigns', '_module_assigns'):
+                if hasattr(mod, attr):
+                    delattr(mod, attr)
+            self._index(mod)
 
     def _index(self, mod: Module) -> None:
         for n in ast.walk(mod.tree):
